@@ -692,10 +692,22 @@ def oracle(case, out):
     # F-C03-6: in these three composites update_predict puts back only the composite's cutoff; what
     # the following predict gets wrong (labels shifted to the members' cutoff; with an absolute
     # horizon the members' steps, hence values or an in-sample error) is one and the same defect
-    if f and case.get("up") and case["fc"]["t"] in ("ensemble", "ttf", "multiplex") and (
-            f.startswith("labels-after-update-predict") or f.startswith("values-after-update-predict")
-            or (f.startswith("raised") and " at predict:" in f)):
-        return COMPOSITE_MOVED + f
+    # The finding is matched by its exact signature, so that a different defect on the same
+    # histories is still reported: with a RELATIVE horizon the labels are those of the last moving
+    # cutoff of the update_predict call (restored cutoff + d, d computed from the call's own
+    # window / step / number of new observations), with an ABSOLUTE horizon the labels are right
+    # and only the values or an in-sample error show it.
+    if f and case.get("up") and case["fc"]["t"] in ("ensemble", "ttf", "multiplex"):
+        if f.startswith("labels-after-update-predict"):
+            up = case["up"]
+            d = ((up["m"] - max(case["fh"])) // up["step"]) * up["step"]
+            a = out["a"]
+            if (case["fh_kind"] == "rel" and d > 0 and "err" not in a
+                    and a["index"] == [w + d for w in expected_index(case, 0)]):
+                return COMPOSITE_MOVED + f
+        elif case["fh_kind"] == "abs" and (f.startswith("values-after-update-predict")
+                                           or (f.startswith("raised") and " at predict:" in f)):
+            return COMPOSITE_MOVED + f
     return f
 
 
